@@ -518,7 +518,9 @@ func c06Body(c *mc.Ctx) {
 	var what string
 	thorough := c.Tier == "thorough"
 	hostile := false
-	switch c.Pick("family", 6) {
+	// the deep-nesting probes come first in exploration order, so that a tier cut short by its
+	// deadline has always run them
+	switch (c.Pick("family", 6) + 5) % 6 {
 	case 5:
 		c06Deep(c)
 		return
